@@ -22,7 +22,7 @@ ACTS = [("ack", "ans"), ("ans",), ("ack",), (), ("nack",), ("ack", "late"), ("ac
         ("ack", "close"), ("close",), ("ind",), ("other",)]
 
 
-def run_script(udp, script, reqs, user_close=None, tcp_lost=None, seed=0, disc_delay=0.0, with_cb=True):
+def run_script(udp, script, reqs, user_close=None, tcp_lost=None, seed=0, disc_delay=0.0, with_cb=True, other=False):
     """script: reactions to the k-th DeviceConfigurationRequest; reqs: list of (start_time, id, kind, pid)"""
     from xknx.cemi import (CEMIFrame, CEMIMessageCode, CEMIMPropInfo, CEMIMPropReadResponse, CEMIMPropWriteResponse)
     from xknx.exceptions import CommunicationError
@@ -99,7 +99,57 @@ def run_script(udp, script, reqs, user_close=None, tcp_lost=None, seed=0, disc_d
 
                 deliver(body, delay, log)
 
+            # other: a second management connection of the same process (another device) is opened, used and reopened meanwhile;
+            # it has its own server, channel and counters - only the first connection is observed
+            conn2 = UDPDeviceManagementConnection("10.0.0.7", 3671, "10.0.0.1") if other else None
+            st2 = {"seq": 0}
+
+            def gw2(data):
+                f, _ = KNXIPFrame.from_knx(data)
+                b = f.body
+
+                def d2(body):
+                    def go():
+                        tr2 = conn2.transport.transport
+                        if tr2 is not None and not tr2.is_closing():
+                            tr2.deliver(KNXIPFrame.init_from_body(body() if callable(body) else body).to_knx(), ("10.0.0.7", 3671))
+                    loop.inject(go)
+
+                if isinstance(b, ConnectRequest):
+                    st2["seq"] = 0
+                    d2(ConnectResponse(communication_channel=9, data_endpoint=HPAI("10.0.0.7", 3671),
+                                       crd=ConnectResponseData(request_type=ConnectRequestType.DEVICE_MGMT_CONNECTION)))
+                elif isinstance(b, DisconnectRequest):
+                    d2(DisconnectResponse(communication_channel_id=9))
+                elif isinstance(b, ConnectionStateRequest):
+                    d2(ConnectionStateResponse(communication_channel_id=9))
+                elif isinstance(b, DeviceConfigurationRequest):
+                    d2(DeviceConfigurationAck(communication_channel_id=9, sequence_counter=b.sequence_counter))
+                    req = CEMIFrame.from_knx(b.raw_cemi)
+                    fr = CEMIFrame(code=CEMIMessageCode.M_PROP_READ_CON, data=CEMIMPropReadResponse(property_info=req.data.property_info, data=b"\x63"))
+
+                    def body2():
+                        s2 = st2["seq"]
+                        st2["seq"] = (s2 + 1) % 256
+                        return DeviceConfigurationRequest(communication_channel_id=9, sequence_counter=s2, raw_cemi=fr.to_knx())
+                    d2(body2)
+
+            async def others():
+                for rounds in range(2):
+                    await asyncio.sleep(0.35)
+                    try:
+                        await conn2.connect()
+                        for k in range(3):
+                            await asyncio.sleep(0.45)
+                            await conn2.read_property(OT, 60 + k)
+                        await asyncio.sleep(1.3)
+                        await conn2.disconnect()
+                    except (CommunicationError, asyncio.CancelledError):
+                        return
+
             def gw(tr, data, addr):
+                if conn2 is not None and tr is getattr(conn2.transport, "transport", None):
+                    return gw2(data)
                 f, _ = KNXIPFrame.from_knx(data)
                 b = f.body
                 if isinstance(b, ConnectRequest):
@@ -187,6 +237,7 @@ def run_script(udp, script, reqs, user_close=None, tcp_lost=None, seed=0, disc_d
                     tr.lose(ConnectionResetError("reset"))
 
             tasks = [asyncio.ensure_future(one(*r)) for r in reqs]
+            bg = asyncio.ensure_future(others()) if other else None
             if user_close is not None:
                 tasks.append(asyncio.ensure_future(closer()))
             if tcp_lost is not None and not udp:
@@ -198,6 +249,12 @@ def run_script(udp, script, reqs, user_close=None, tcp_lost=None, seed=0, disc_d
                 await conn.disconnect()
             except Exception:  # noqa: BLE001
                 pass
+            if bg is not None:
+                bg.cancel()
+                try:
+                    await conn2.disconnect()
+                except Exception:  # noqa: BLE001
+                    pass
 
         loop.run_until_complete(main())
     return {"udp": 1 if udp else 0, "ev": ev}
@@ -244,7 +301,11 @@ def run(ck):
     ck.assume("'promptly': a request outstanding when the connection closes fails no later than the acknowledgement wait already running (10 s), immediately otherwise, and nothing more is transmitted")
     tlc.mc(ck, "io/DevMgmt_MC", require_actions=False)
     ps = plans(ck)
-    traces = [run_script(p["udp"], p["script"], p["reqs"], p.get("user_close"), p.get("tcp_lost"), ck.seed, p.get("disc_delay", 0.0), p.get("with_cb", True)) for p in ps]
+    for i, p in enumerate(ps):           # every fourth UDP plan with a second management connection at work in the same process
+        if p["udp"] and i % 4 == 1:
+            p["other"] = True
+    traces = [run_script(p["udp"], p["script"], p["reqs"], p.get("user_close"), p.get("tcp_lost"), ck.seed, p.get("disc_delay", 0.0), p.get("with_cb", True),
+                         p.get("other", False)) for p in ps]
     res = tlc.batch(ck, "io/DevMgmt_Trace", traces, min_per_shard=60)
     for idx, info in sorted(res.bad.items()):
         t = traces[idx]["ev"]
@@ -289,7 +350,7 @@ def replay(ck, path):
 
     d = json.loads(open(path).read())["replay"]
     p = d["plan"]
-    t = run_script(p["udp"], [tuple(a) for a in p["script"]], [tuple(r) for r in p["reqs"]], p.get("user_close"), p.get("tcp_lost"), ck.seed, p.get("disc_delay", 0.0), p.get("with_cb", True))
+    t = run_script(p["udp"], [tuple(a) for a in p["script"]], [tuple(r) for r in p["reqs"]], p.get("user_close"), p.get("tcp_lost"), ck.seed, p.get("disc_delay", 0.0), p.get("with_cb", True), p.get("other", False))
     res = tlc.batch(ck, "io/DevMgmt_Trace", [t])
     l = res.bad.get(0)
     print("rejected at:", l, t["ev"][l - 1] if l else None)
